@@ -5,11 +5,13 @@ A case is a *history*: 1..2 inputs (scenario + planning-problem set + author/aff
 0..2 files that exist beforehand, and an interleaving of writer constructions and write calls.
 
     {"g0": 4, "inputs": [<input spec>], "pre": [[path, k]],
-     "ops": [["new", label, fmt, input index, precision|null, via], ["write", label, kind, file|null, mode, answer|null]]}
+     "ops": [["new", label, fmt, input index, precision|null, via],
+             ["write", label, kind, file|null, mode, answer|null, [y, m, d, h, min]|null (what the clock shows; optional)]]}
 
-correspondence: the outcome of every call (wrote which file with which content / skipped / raised) and the final
-  directory, content abstracted to (format, input, blocks under the root, decimals of the probe coordinates per block),
-  against CR.Writer.run (repaired semantics, symbolic codec).
+correspondence: the outcome of every call (wrote which file with which content / no visible change / raised which class),
+  the final directory, `precision.decimals` after every call, which produced files read back and which read back alike,
+  which are equal once the date stamp is erased — content abstracted to (format, input, date stamp, blocks under the root,
+  decimals of the probe coordinates per block) — against CR.Writer.run (repaired semantics, symbolic codec).
 oracle (no model involved): every file a write call produced is byte-identical, date stamp erased, to the file a freshly
   constructed identical writer produces in one call; it reads back, and reads back to the same objects as that reference
   file; a call with OverwriteExistingFile.SKIP leaves every existing file byte-for-byte as it was.
@@ -28,19 +30,33 @@ from common import CORPUS_DIR, Ctx, call
 RULE = ("histories of 2..4 writers (XML / protobuf; precisions 1..12 incl. the default 4; facade CommonRoadFileWriter or the "
         "format class itself; constructor arguments explicit or taken from the scenario) over 1..2 generated scenarios (2..4 "
         "lanelets, one static and one dynamic obstacle with a trajectory, 1..2 planning problems, probe coordinates with 12 "
-        "decimals, values that print in e-notation), constructions and 1..7 write_to_file / write_scenario_to_file calls "
-        "interleaved in random order (the same writer twice, identical writers, other precision / other format in between), "
-        "file names: default, a pool of 3 names that collide, rarely ''; modes ALWAYS / SKIP / ASK (scripted answer); 0..2 files "
-        "existing beforehand; distinct = canonical JSON of the history; non-trivial = a history with >= 2 performed writes")
-ASSUMPTIONS = ["content production (which nodes / message fields a scenario turns into) is a parameter of the model; the "
-               "correspondence sees it through (format, input, blocks under the root, decimals of probe coordinates)",
-               "the XML date attribute and the protobuf information.date field are the date stamp the text sets aside",
-               "the reader (CommonRoadFileReader) is deterministic on identical bytes"]
-TRUSTED = ["harness/c15.py describe(): recognises blocks and probe decimals in a real XML / protobuf file"]
+        "decimals, values that print in e-notation; 12% of the inputs have a planning problem whose creator raises — XML inside "
+        "the with-block, protobuf in the message creator), constructions and 1..7 write_to_file / write_scenario_to_file calls "
+        "interleaved in random order (the same writer twice, identical writers, other precision / other format in between, "
+        "writes after a raising write), the clock scripted per call from 3 dates (10%: real clock), file names: default, a "
+        "pool of 3 names that collide, rarely ''; modes ALWAYS / SKIP / ASK (scripted answer); 0..2 files existing beforehand "
+        "(30% of them empty); distinct = canonical JSON of the history; non-trivial = a history with >= 2 performed writes")
+ASSUMPTIONS = ["content production (which objects a scenario consists of, which node / message field an object turns into, "
+               "serialisation) is a parameter of the model; the correspondence sees it through (format, input, date stamp, blocks "
+               "under the root, decimals of probe coordinates)",
+               "DateLaw (hypothesis of the 'date stamp aside' theorems): the date of a call enters a file only through the XML "
+               "date attribute / the protobuf information.date field; tied by comparing, per history, which produced files are "
+               "equal after erase_date() with which are equal after the model's eraseDate, on calls with different scripted dates",
+               "ReadLaw (hypothesis of the read-back theorems): a file rendered by ONE call reads back, to a value determined by "
+               "format, input, method and precision — this is C01 (XML) / C02 (protobuf); tied by comparing which produced files "
+               "read back and which read back alike (canonical re-write of the objects read) with the model's reader",
+               "the model is given, per write call, the date that ended up in the produced file (the clock is an input)",
+               "the reader (CommonRoadFileReader) is deterministic on identical bytes",
+               "precision.decimals after every call is compared with the model (constructor sets it, a write restores it, also "
+               "when it raises): a code change that keeps the property sentence but stops restoring the global is reported as a "
+               "model/code disagreement (no-failing-input-found), not as a failing input"]
+TRUSTED = ["harness/c15.py describe(): recognises date stamp, blocks and probe decimals in a real XML / protobuf file",
+           "harness/c15.py clock(): replaces the `datetime` module global of the two writer modules while a call runs"]
 REQUIRED_BUCKETS = ["fmt/xml", "fmt/pb", "kind/full", "kind/scenario", "same-writer-twice", "identical-writers",
                     "other-precision-between", "other-format-between", "mode/skip-existing", "mode/ask-existing",
                     "mode/always-existing", "name/default", "name/collision", "pre-existing", "two-inputs", "precision/1",
-                    "precision/12", "precision/default", "via/class"]
+                    "precision/12", "precision/default", "via/class", "dates-differ", "raising-write",
+                    "write-after-raising-write", "other-writer-raised-before"]
 WORKERS = {"quick": 1, "thorough": 8}
 
 METHOD = {"full": "write_to_file", "scenario": "write_scenario_to_file"}
@@ -80,7 +96,10 @@ def gen_input(r, k):
             "probe_s": gen_probe(r), "probe_p": gen_probe(r), "vals": [gen_value(r) for _ in range(12)],
             "steps": r.randint(2, 5), "npp": r.choice([1, 1, 2]), "tags": r.sample(["URBAN", "HIGHWAY", "INTERSECTION", "SIMULATED"], r.randint(1, 3)),
             "location": r.choice([None, [2867714, 48.262333, 11.668775], [r.randint(1, 10 ** 6), r.uniform(-80, 80), r.uniform(-170, 170)]]),
-            "args": r.choice(["scenario", "explicit"])}
+            "args": r.choice(["scenario", "explicit"]),
+            # a goal time interval with float ends: the node / message creator of the planning problem raises
+            # (XML: AssertionError in create_interval_node_int, inside the with-block; protobuf: TypeError)
+            "bad_goal_time": r.random() < 0.12}
 
 
 def build_input(spec):
@@ -127,7 +146,8 @@ def build_input(spec):
     sc.add_objects([static, dynamic])
     pps = []
     for j in range(spec["npp"]):
-        goal = GoalRegion([KSState(time_step=Interval(5 + j, 10 + j), velocity=Interval(v[1], 10.0 + v[2]),
+        t_lo, t_hi = (5.5, 10.5) if spec.get("bad_goal_time") and j == 0 else (5 + j, 10 + j)
+        goal = GoalRegion([KSState(time_step=Interval(t_lo, t_hi), velocity=Interval(v[1], 10.0 + v[2]),
                                    position=Circle(1.5 + v[j], np.array([n * seg - 2.0, v[5]])) if j else
                                    Rectangle(2.0 + v[2], 2.0, np.array([n * seg - 2.0, v[5]]), v[3] % 1.0 - 0.5))])
         pps.append(PlanningProblem(2000 + 10 * k + j, init(spec["probe_p"] if j == 0 else 1.0 + v[j], 0.0, 3.0 + v[6]), goal))
@@ -189,14 +209,16 @@ def describe(content: bytes, names):
                 last_pp = True
             else:
                 last_pp = False
-        return {"fmt": "xml", "inp": names.get(root.get("benchmarkID"), -1), "nodes": nodes}
+        return {"fmt": "xml", "inp": names.get(root.get("benchmarkID"), -1), "date": root.get("date"), "nodes": nodes}
     from commonroad.scenario_definition.protobuf_format.generated_scripts import commonroad_pb2
     msg = commonroad_pb2.CommonRoad()
     msg.ParseFromString(content)
     nodes = [[False, (o.static_obstacle_id - 1000) // 10, 0] for o in msg.static_obstacles]
     if len(msg.planning_problems):
         nodes.append([True, (msg.planning_problems[0].planning_problem_id - 2000) // 10, 0])
-    return {"fmt": "pb", "inp": names.get(msg.information.benchmark_id, -1), "nodes": nodes}
+    dt = msg.information.date
+    return {"fmt": "pb", "inp": names.get(msg.information.benchmark_id, -1),
+            "date": f"{dt.year:04d}-{dt.month:02d}-{dt.day:02d}T{dt.hour:02d}:{dt.minute:02d}", "nodes": nodes}
 
 
 _RB_CACHE = {}
@@ -279,8 +301,47 @@ def list_files(root):
     return out
 
 
-def do_write(writer, kind, file, mode, answer):
-    """One write call with stdout swallowed and input() scripted. -> ('ok', None) | ('err', cls, msg)"""
+@contextlib.contextmanager
+def clock(date):
+    """While the block runs, `datetime.datetime.today()` as the two writer modules see it shows `date` = [y, m, d, h, min]
+    (best effort: only where a module refers to the clock through its `datetime` module global; otherwise the real
+    clock stays — the model is always given the date that ends up in the file)."""
+    import datetime as real
+    import types
+    if date is None:
+        yield
+        return
+    from commonroad.common.writer import file_writer_protobuf, file_writer_xml
+
+    class Fixed(real.datetime):
+        @classmethod
+        def today(cls):
+            return cls(*date)
+
+        @classmethod
+        def now(cls, tz=None):
+            return cls(*date)
+
+    fake = types.SimpleNamespace(**{k: getattr(real, k) for k in dir(real) if not k.startswith("__")})
+    fake.datetime = Fixed
+    patched = []
+    for mod in (file_writer_xml, file_writer_protobuf):
+        if getattr(mod, "datetime", None) is real:
+            mod.datetime = fake
+            patched.append(mod)
+    try:
+        yield
+    finally:
+        for mod in patched:
+            mod.datetime = real
+
+
+REF_DATE = [2001, 2, 3, 4, 5]
+DATES = [[2031, 5, 17, 8, 30], [2031, 5, 18, 23, 59], [1999, 12, 31, 0, 0]]
+
+
+def do_write(writer, kind, file, mode, answer, date=None):
+    """One write call with stdout swallowed, input() scripted and the clock set. -> ('ok', None) | ('err', cls, msg)"""
     from commonroad.common.file_writer import OverwriteExistingFile
     m = {"always": OverwriteExistingFile.ALWAYS, "skip": OverwriteExistingFile.SKIP, "ask": OverwriteExistingFile.ASK_USER_INPUT}[mode]
     asked = []
@@ -292,7 +353,7 @@ def do_write(writer, kind, file, mode, answer):
     old = builtins.input
     builtins.input = fake_input
     try:
-        with contextlib.redirect_stdout(io.StringIO()):
+        with contextlib.redirect_stdout(io.StringIO()), clock(date):
             return call(getattr(writer, METHOD[kind]), file, m)
     finally:
         builtins.input = old
@@ -308,7 +369,7 @@ def reference(inputs, key, cache, refdir):
     path = os.path.join(refdir, f"ref{len(cache)}")
     try:
         w = make_writer(inputs[i], fmt, prec, "facade")
-        r = do_write(w, kind, path, "always", None)
+        r = do_write(w, kind, path, "always", None, REF_DATE)
         if r[0] == "ok" and os.path.isfile(path):
             content = erase_date(open(path, "rb").read())
             rb = call(read_back, path, fmt)
@@ -340,6 +401,7 @@ def run_case(ctx, case, model=True):
     precision.decimals = case.get("g0", 4)
     try:
         writers, meta, outcomes, events = {}, {}, [], []
+        gprecs, dates, reads, erased = [], [], [], []     # global precision after every op; date per op; per visible write
         order = []                       # labels in order of construction (model index)
         for op in case["ops"]:
             if op[0] == "new":
@@ -354,16 +416,22 @@ def run_case(ctx, case, model=True):
                 else:
                     outcomes.append({"err": r[1]})
                     ctx.fail(f"C15/{fmt}.__init__/raises-{r[1]}", f"constructing a {fmt} writer raised {r[2]}", case)
+                gprecs.append(precision.decimals)
+                dates.append("")
                 continue
-            _, label, kind, file, mode, answer = op
+            _, label, kind, file, mode, answer = op[:6]
+            date = op[6] if len(op) > 6 else None
             if label not in writers:
                 outcomes.append({"err": "index"})
+                gprecs.append(precision.decimals)
+                dates.append("")
                 continue
             mt = meta[label]
             before = {rel: open(p, "rb").read() for rel, p in list_files(work).items()}
             for p in list_files(work).values():
                 os.utime(p, ns=(10 ** 9, 10 ** 9))
-            r = do_write(writers[label], kind, file, mode, answer)
+            r = do_write(writers[label], kind, file, mode, answer, date)
+            gprecs.append(precision.decimals)
             after = list_files(work)
             now = {rel: open(p, "rb").read() for rel, p in after.items()}
             # visible change: a new file, or other bytes than before (date stamp aside)
@@ -373,6 +441,7 @@ def run_case(ctx, case, model=True):
             changed = sorted(set(visible) | {rel for rel, p in after.items() if not keep and os.stat(p).st_mtime_ns != 10 ** 9})
             ev = {"label": label, "kind": kind, "file": file, "mode": mode, "changed": changed, "result": r[0],
                   "prior_writes": mt["writes"], "since": [e for e in events[mt["born"] + 1:]]}
+            seen_date = ""
             if r[0] == "err":
                 outcomes.append({"err": r[1]})
                 ev["err"] = r
@@ -381,11 +450,18 @@ def run_case(ctx, case, model=True):
             else:
                 d = call(describe, now[visible[0]], names)
                 outcomes.append({"wrote": [visible[0], d[1] if d[0] == "ok" else {"unreadable": d[1]}]})
+                rb = call(_read_bytes, now[visible[0]], mt["fmt"], refdir)
+                reads.append(None if rb[0] == "err" else (mt["fmt"], rb[1][1] or json.dumps(rb[1][0], sort_keys=True)))
+                erased.append(erase_date(now[visible[0]]))
             if r[0] == "ok" and changed:
                 rel = visible[0] if visible else changed[0]
                 ev["content"] = now[rel]
                 ev["path"] = rel
                 mt["writes"] += 1
+                d = call(describe, now[rel], names)
+                seen_date = (d[1].get("date") or "") if d[0] == "ok" else ""
+                ev["date"] = seen_date
+            dates.append(seen_date)
             # SKIP leaves every existing file byte-for-byte untouched
             if mode == "skip":
                 for rel, old in before.items():
@@ -404,7 +480,7 @@ def run_case(ctx, case, model=True):
                 fs.append(d[1] if d[0] == "ok" else {"unreadable": d[1]})
             else:
                 fs.append(None)
-        impl = {"outcomes": outcomes, "fs": fs}
+        impl = {"outcomes": outcomes, "fs": fs, "gprecs": gprecs, "reads": classes(reads), "erased": classes(erased)}
 
         # ---- buckets
         classify(ctx, case, meta, events)
@@ -418,22 +494,35 @@ def run_case(ctx, case, model=True):
                 if op[0] == "new":
                     mops.append(["new", op[2], op[3], 4 if op[4] is None else op[4]])
                 else:
-                    mops.append(["write", idx.get(op[1], 10 ** 6), op[2], op[3], op[4], op[5] == "n"])
-            ans = ctx.driver.ask("C15", "run", {"gprec": case.get("g0", 4), "inputs": [{"id": s["id"], "name": s["name"]} for s in case["inputs"]],
-                                                "pre": case["pre"], "ops": mops, "paths": paths})
-            # outcomes are compared by what is visible in the directory: a rewrite with the content that was there is no change
+                    mops.append(["write", idx.get(op[1], 10 ** 6), op[2], op[3], op[4], op[5] == "n", dates[len(mops)]])
+            minputs = []
+            for sp in case["inputs"]:
+                mi = {"id": sp["id"], "name": sp["name"]}
+                if sp.get("bad_goal_time"):
+                    mi.update(xmlErr="assert", pbErr="type")
+                minputs.append(mi)
+            ans = ctx.driver.ask("C15", "run", {"gprec": case.get("g0", 4), "inputs": minputs, "pre": case["pre"], "ops": mops, "paths": paths})
+            # outcomes are compared by what is visible in the directory: a rewrite with the content that was there
+            # (date stamp aside) is no change
             cur = {p: {"foreign": k} for p, k in case["pre"]}
-            mout = []
+            mout, mreads, merased = [], [], []
             for o in ans["outcomes"]:
                 if o == "skipped":
                     o = "no-change"
                 elif isinstance(o, dict) and "wrote" in o:
                     p, d = o["wrote"]
-                    if cur.get(p) == d:
-                        o = "no-change"
-                    cur[p] = d
+                    er = o["erased"]
+                    if cur.get(p) == er:
+                        new_o = "no-change"
+                    else:
+                        mreads.append(None if o["read"] is None else json.dumps(o["read"]))
+                        merased.append(json.dumps(er, sort_keys=True))
+                        new_o = {"wrote": [p, d]}
+                    cur[p] = er
+                    o = new_o
                 mout.append(o)
-            ctx.compare(case, impl, {"outcomes": mout, "fs": ans["fs"]}, "writer history vs CR.Writer.run repaired symCodec")
+            ctx.compare(case, impl, {"outcomes": mout, "fs": ans["fs"], "gprecs": ans["gprecs"], "reads": classes(mreads),
+                                     "erased": classes(merased)}, "writer history vs CR.Writer.run repaired symCodec")
 
         # ---- oracle: content is a function of the writer's own inputs
         cache = {}
@@ -447,6 +536,8 @@ def run_case(ctx, case, model=True):
             if ev["result"] == "err":
                 if ev["file"] == "":
                     ctx.excluded += 1        # an empty file name is not a file name; the text says nothing about it
+                elif reference(inputs, (mt["inp"], fmt, mt["prec"], kind), cache, refdir)["content"] is None:
+                    ctx.excluded += 1        # one call on a fresh identical writer raises as well: this input cannot be written
                 else:
                     ctx.fail(f"{site}/raises-{ev['err'][1]}", f"{METHOD[kind]}({ev['file']!r}, {ev['mode']}) raised {ev['err'][2]}", case)
                 continue
@@ -489,6 +580,17 @@ def run_case(ctx, case, model=True):
         os.chdir(cwd)
 
 
+def classes(xs):
+    """Equality pattern of a list: every element replaced by the index of its first occurrence (None stays None)."""
+    first, out = {}, []
+    for x in xs:
+        if x is None:
+            out.append(None)
+        else:
+            out.append(first.setdefault(x, len(first)))
+    return out
+
+
 def _read_bytes(content, fmt, refdir):
     p = os.path.join(refdir, "tmp_readback")
     with open(p, "wb") as f:
@@ -515,11 +617,24 @@ def classify(ctx, case, meta, events):
             if op[5] == "class":
                 ctx.tag("via/class")
     wrote_by_sig = {}
+    raised, dates_by_sig = set(), {}
     for e in events:
         if e[0] != "write":
             continue
         ev = e[2]
         m = meta[ev["label"]]
+        if ev["result"] == "err" and ev["file"] != "":
+            ctx.tag("raising-write")
+            raised.add(ev["label"])
+        elif ev.get("content") is not None:
+            if ev["label"] in raised:
+                ctx.tag("write-after-raising-write")
+            elif raised:
+                ctx.tag("other-writer-raised-before")
+            k = (m["fmt"], m["inp"], m["prec"], ev["kind"])
+            if any(d != ev.get("date") for d in dates_by_sig.get(k, [])):
+                ctx.tag("dates-differ")
+            dates_by_sig.setdefault(k, []).append(ev.get("date"))
         ctx.tag(f"kind/{ev['kind']}")
         if ev["file"] is None:
             ctx.tag("name/default")
@@ -597,7 +712,7 @@ def gen_case(ctx):
         file = None if c < 0.2 else ("" if c < 0.23 else r.choice(POOL))
         c = r.random()
         mode, answer = ("always", None) if c < 0.5 else (("skip", None) if c < 0.82 else ("ask", r.choice(["n", "y", "", "no"])))
-        ops.append(["write", label, kind, file, mode, answer])
+        ops.append(["write", label, kind, file, mode, answer, None if r.random() < 0.1 else r.choice(DATES)])
         writes_left -= 1
     pre = []
     for k in range(r.choice([0, 0, 1, 2])):
